@@ -528,6 +528,46 @@ def _must_raise_nonpd(ctx, paths, key, loc):
 # ------------------------------------------------------------ PARAM-DISPATCH
 
 
+def _length_case_value(c, q, case):
+    """three-valued value of condition c when the free length q is 1 ("one"), X.shape[1] ("p", assumed != 1) or neither
+    ("other"); None when c says nothing decided about q"""
+    t = c.t
+    if t[0] == "const":
+        return t[1]
+    if t[0] == "not":
+        v = _length_case_value(t[1], q, case)
+        return None if v is None else (not v)
+    if t[0] in ("and", "or"):
+        a, b = _length_case_value(t[1], q, case), _length_case_value(t[2], q, case)
+        if t[0] == "and":
+            if a is False or b is False:
+                return False
+            return True if (a is True and b is True) else None
+        if a is True or b is True:
+            return True
+        return False if (a is False and b is False) else None
+    if t[0] == "cmp" and t[1] in ("==0", "!=0"):
+        d = t[2]
+        zero = None
+        for sign in (1, -1):
+            if nf_equal(d, (q - NF.const(1)) * sign):
+                zero = case == "one"
+            elif nf_equal(d, (q - lift(Pdim)) * sign):
+                zero = case == "p"
+        if zero is None:
+            return None
+        return zero if t[1] == "==0" else (not zero)
+    return None
+
+
+def _consistent_with_length(path, q, case):
+    for c, v in path.facts:
+        val = _length_case_value(c, q, case)
+        if val is not None and val != v:
+            return False
+    return True
+
+
 def check_param_validation(ctx, cls, tab):
     rule = "C01.e PARAM-DISPATCH"
     q = sym("q")
@@ -549,9 +589,15 @@ def check_param_validation(ctx, cls, tab):
         if comp == "cov":
             continue  # shape (q, q) of a covariance: decided below (cov-shape)
         _ex, cpaths, _st = scenario(ctx, cls, tab, "fixed-array", qlen=q, only=comp)
-        wrong = guard_outcomes(cpaths, lambda c: same_set(c, "and", [c1, cp]))
+        # decided by cases on the free length q, whatever the spelling of the guards (one `and`, nested ifs, a helper
+        # with an early return): a path is open to a WRONG length if none of its facts about q contradicts q not in {1, p}
+        wrong = [x for x in cpaths if _consistent_with_length(x, q, "other")]
+        if any(x.outcome == "return" for x in wrong):
+            bad_ = next(x for x in wrong if x.outcome == "return")
+            ctx.violation(rule, f"{cls.name}|{comp}|length", loc, f"a {comp} whose length is neither 1 nor X.shape[1] reaches the kernel: no fact on a returning path excludes it", found=[f"{c!r}={v}" for c, v in bad_.facts if "q" in repr(c)][:4], expected=f"len({comp}) != 1 and len({comp}) != X.shape[1] -> ValueError")
+            continue
         if not wrong:
-            ctx.violation(rule, f"{cls.name}|{comp}|length", loc, f"no guard of the form len({comp}) != 1 and len({comp}) != X.shape[1] on the fit path: a {comp} of the wrong length reaches the kernel")
+            ctx.undecided(rule, f"{cls.name}|{comp}|length", loc, f"no path of the scenario is open to a {comp} of a wrong length and none rejects it: the guards on the length were not read")
             continue
         ok = all(x.outcome == "raise" and x.exc.exc_name == "ValueError" for x in wrong)
         ctx.check(ok, rule, f"{cls.name}|{comp}|length", raise_loc(wrong[0], loc), f"a {comp} of length other than 1 or p is rejected with ValueError", found=[(x.exc.exc_name if x.outcome == "raise" else "accepted") for x in wrong], expected="ValueError")
